@@ -277,6 +277,8 @@ def classify_c03(v, h, text):
         return "malformed-brackets"
     if not valid_host(rh):
         return "skip"
+    if scheme in ("http", "https", "ws", "wss", "ftp") and not rh:
+        return "skip"      # these schemes require a host: an empty one is not a valid host for them
     val0 = v.get(h, "val")
     if rh == "" and val0 and val0.startswith("L5:") and val0[3:].split(",")[1] == "":
         return "authority-normalises-to-empty"
